@@ -106,6 +106,60 @@ def run_one(mod, case, ctx, limit):
     return {"v": "inconclusive", "why": "watchdog"}
 
 
+def apply_user_environment(chunk, ctx):
+    """Every second chunk runs in the process of a user who has set up his environment: a local time zone that is not
+    UTC, numpy asked to raise on floating-point underflow / invalid / overflow, warnings turned into errors, terse
+    numpy print options, seeded random generators, another working directory.  These are settings a user may
+    legitimately have made; the library's answers must not depend on them.  VT_ENV_PROFILE=0 switches this off,
+    =1 applies it to every chunk."""
+    mode = os.environ.get("VT_ENV_PROFILE", "auto")
+    on = mode == "1" or (mode == "auto" and int(chunk.get("chunk_id", 0)) % 2 == 1)
+    if not on:
+        return False
+    import random
+    import tempfile
+    import warnings
+    import numpy as np
+    os.environ["TZ"] = "CET-1CEST,M3.5.0,M10.5.0/3"
+    time.tzset()
+    np.seterr(divide="raise", invalid="raise", under="raise", over="ignore")   # (overflow: casting the documented
+    # 1e300 sentinels to a single-precision cut-off overflows by construction)
+    if os.environ.get("VT_ENV_WARNINGS", "error") == "error":
+        warnings.simplefilter("error")
+    np.set_printoptions(precision=2, threshold=4, suppress=True)
+    random.seed(20240229)
+    np.random.seed(20240229)
+    try:
+        os.chdir(tempfile.gettempdir())
+    except OSError:
+        pass
+    ctx.count("chunk_run_in_a_user_configured_environment")
+    return True
+
+
+def run_again(again, ctx, limit):
+    """Ask the objects of an EARLIER case again, after another case has used the library in between (two independent
+    sets of objects used alternately in one process).  `again` is the callable that case returned under "again"; it
+    judges its own answer and returns None or a witness dict."""
+    from vt import monitor as M
+    signal.setitimer(WATCHDOG_TIMER, 3 * limit)
+    try:
+        with M.quiet():
+            w = again()
+        signal.setitimer(WATCHDOG_TIMER, 0)
+        return w
+    except M.CaseTimeout:
+        signal.setitimer(WATCHDOG_TIMER, 0)
+        ctx.count("watchdog_fired_in_again")
+        return None
+    except M.ContractBroken as e:
+        signal.setitimer(WATCHDOG_TIMER, 0)
+        return {"contract": e.name, "detail": e.detail}
+    except BaseException:
+        signal.setitimer(WATCHDOG_TIMER, 0)
+        raise
+
+
 def worker_main(pid, chunk_path, out_path):
     import faulthandler
     faulthandler.enable()
@@ -131,9 +185,11 @@ def worker_main(pid, chunk_path, out_path):
     sigs = array.array("Q")
     nt_sigs = array.array("Q")
     hangs = 0
+    pending = None          # (earlier case, its "again" callable): asked again after the next case has run
     with M.quiet():
         if hasattr(mod, "setup"):
             mod.setup(ctx)
+    user_env = apply_user_environment(chunk, ctx)
     try:
         for case in mod.cases(chunk):
             if hangs >= 3:
@@ -155,6 +211,29 @@ def worker_main(pid, chunk_path, out_path):
                          "traceback": "".join(traceback.format_exception(et, ev, tb))[-3000:]})
                 out["inconclusive"] += 1
                 continue
+            again = res.pop("again", None) if isinstance(res, dict) else None
+            if pending is not None:
+                first, ask = pending
+                pending = None
+                try:
+                    w_again = run_again(ask, ctx, limit)
+                except KeyboardInterrupt:
+                    raise
+                except BaseException:
+                    w_again = None
+                    ctx.count("again_raised_in_the_harness")
+                ctx.monitor("earlier_objects.asked_again_after_another_case")
+                if w_again:
+                    out["violated"] += 1
+                    w_again = dict(w_again)
+                    w_again["history"] = ("the objects of an earlier case were asked again after another case had used the "
+                                          "library in between (case = {'_pair': [earlier case, case in between]})")
+                    if len(out["violations"]) < MAX_VIOL_PER_CHUNK:
+                        out["violations"].append({"case": M.jsonable({"_pair": [first, case]}),
+                                                  "witness": M.jsonable(w_again), "known": None,
+                                                  "user_environment": user_env})
+            if again is not None and res.get("v") == "held":
+                pending = (case, again)
             v = res["v"]
             if v == "held":
                 out["held"] += 1
@@ -174,7 +253,7 @@ def worker_main(pid, chunk_path, out_path):
                 if kf:
                     out["known"][kf] = out["known"].get(kf, 0) + 1
                 rec = {"case": M.jsonable(case), "witness": M.jsonable(res.get("witness")),
-                       "known": kf}
+                       "known": kf, "user_environment": user_env}
                 nk = sum(1 for x in out["violations"] if x["known"] == kf)
                 if nk < (3 if kf else MAX_VIOL_PER_CHUNK):
                     out["violations"].append(rec)
@@ -421,7 +500,8 @@ def run_property(pid, tier, seed, jobs, keep=False):
             rp = os.path.join(OUT, "replays", "%s-%s-%d-%d.json" % (pid, tier, seed, n))
             with open(rp, "w") as f:
                 json.dump({"property": pid, "tier": tier, "seed": seed, "case": v["case"],
-                           "witness": v["witness"], "classified": v["known"]}, f, indent=1)
+                           "witness": v["witness"], "classified": v["known"],
+                           "user_environment": bool(v.get("user_environment"))}, f, indent=1)
             print("VIOLATION property=%s replay=%s" % (pid, rp))
             w = json.dumps(v["witness"])
             print("  witness: " + (w[:700] + (" ..." if len(w) > 700 else "")))
@@ -450,7 +530,24 @@ def replay(pid, path):
     with M.quiet():
         if hasattr(mod, "setup"):
             mod.setup(M.CTX)
-    res = run_one(mod, case, M.CTX, float(getattr(mod, "CASE_LIMIT_S", 20.0)))
+    lim = float(getattr(mod, "CASE_LIMIT_S", 20.0))
+    if data.get("user_environment"):
+        os.environ["VT_ENV_PROFILE"] = "1"
+        apply_user_environment({}, M.CTX)
+    if isinstance(case, dict) and "_pair" in case:
+        first, between = case["_pair"]
+        res = run_one(mod, first, M.CTX, lim)
+        ask = res.pop("again", None) if isinstance(res, dict) else None
+        if res.get("v") == "held" and ask is not None:
+            run_one(mod, between, M.CTX, lim)
+            w = run_again(ask, M.CTX, lim)
+            if w:
+                res = {"v": "violated", "witness": w}
+        case = first
+    else:
+        res = run_one(mod, case, M.CTX, lim)
+        if isinstance(res, dict):
+            res.pop("again", None)
     print(json.dumps(M.jsonable(res), indent=1)[:6000])
     if res["v"] == "violated":
         kf = mod.classify(case, res.get("witness", {})) if hasattr(mod, "classify") else None
